@@ -16,6 +16,7 @@ import (
 	"path/filepath"
 	"reflect"
 	"regexp"
+	"runtime"
 	"sort"
 	"strconv"
 	"strings"
@@ -1754,7 +1755,16 @@ func renderCounters(cs counters.CounterStyle, in string) int {
 		if !renderable(cs[name]) {
 			continue
 		}
+		short := true // 10^6 only with short symbols: the symbolic system repeats a symbol value/len times
+		for _, sy := range cs[name].Symbols {
+			if len(sy.String) > 8 {
+				short = false
+			}
+		}
 		for _, v := range counterValues {
+			if v >= 1000 && !short {
+				v = 1000
+			}
 			cs.RenderValue(bigValue(in, v), name)
 			if v < 1000 {
 				cs.RenderMarker(pr.CounterStyleID{Name: name}, v)
@@ -1802,7 +1812,16 @@ func runCounterRender(in string) bool {
 		for _, d := range decls {
 			if id, is := d.Value.(pr.CounterStyleID); is {
 				ok = true
+				short := true
+				for _, sy := range id.Symbols {
+					if len(sy) > 8 {
+						short = false
+					}
+				}
 				for _, v := range counterValues {
+					if v >= 1000 && !short {
+						v = 1000
+					}
 					cs.RenderValueStyle(bigValue(in, v), id)
 					if v < 1000 {
 						cs.RenderMarker(id, v)
@@ -1929,8 +1948,11 @@ func (p *fontPool) runHTMLAttr(in string) bool {
 	if f == nil {
 		return false
 	}
+	// returned even when the layout panics (a configuration holds ~30 MB of parsed fonts that the
+	// font libraries keep reachable: building a fresh one per crash leaks); a run that timed out
+	// gives it back when (if) it finishes, so it is never shared
+	defer p.put(f)
 	pages, _, err := render.LayoutOnly(in, f, render.Opts{Hints: true, Fetcher: safeFetch})
-	p.put(f) // not returned on panic / timeout: a fresh configuration is built instead
 	return err == nil && len(pages) > 0
 }
 
@@ -1989,6 +2011,11 @@ func RunSearch(tier string, seed uint64, repo string, out *res.Result) error {
 	if s := os.Getenv("WRH_C07_WORKERS"); s != "" {
 		if n, err := strconv.Atoi(s); err == nil && n > 0 && n <= 16 {
 			workers = n
+		}
+	}
+	if s := os.Getenv("WRH_C07_PASSES"); s != "" { // development aid
+		if n, err := strconv.Atoi(s); err == nil && n > 0 {
+			scale = n
 		}
 	}
 	if s := os.Getenv("WRH_C07_SCALE_PERCENT"); s != "" { // development aid
@@ -2215,6 +2242,11 @@ func RunSearch(tier string, seed uint64, repo string, out *res.Result) error {
 			e.runGroup(g, states[i])
 			states[i].inputs += out.Evaluations - before
 			states[i].secs += time.Since(tg).Seconds()
+			if os.Getenv("WRH_C07_VERBOSE") != "" {
+				var ms runtime.MemStats
+				runtime.ReadMemStats(&ms)
+				fmt.Fprintf(os.Stderr, "c07 pass %d %-28s %6d inputs %6.1fs  t=%5.0fs heap=%dMB goroutines=%d\n", pass, g.name, out.Evaluations-before, time.Since(tg).Seconds(), time.Since(t0).Seconds(), ms.HeapAlloc>>20, runtime.NumGoroutine())
+			}
 		}
 	}
 	for i, g := range groups {
